@@ -191,6 +191,34 @@ theorem insertPhis_closed_init (n : Nat) (df : Nat → List Nat) (written : Nat 
   insertPhis_closed n df written fuel (List.range n) (fun _ => []) Pf
     (fun x hx hxn => absurd (List.mem_range.mpr hx) hxn) h
 
+/-- phi statements are only inserted for variables that some block writes -/
+theorem insertPhis_vars (df : Nat → List Nat) (written : Nat → List Var) (Q : Var → Prop) (hQ : ∀ x v, v ∈ written x → Q v) :
+    ∀ (fuel : Nat) (wl : List Nat) (P Pf : Phis), (∀ j v, v ∈ P j → Q v) →
+      insertPhis df written fuel wl P = some Pf → ∀ j v, v ∈ Pf j → Q v := by
+  intro fuel
+  induction fuel with
+  | zero =>
+    intro wl P Pf hP h
+    simp only [insertPhis] at h
+    split at h
+    · cases h; exact hP
+    · cases h
+  | succ f ih =>
+    intro wl P Pf hP h
+    simp only [insertPhis] at h
+    cases hl : wl.getLast? with
+    | none => rw [hl] at h; cases h; exact hP
+    | some cur =>
+      rw [hl] at h
+      obtain ⟨_, _, g3, _, _, _⟩ := frontierFold_spec (written cur ++ P cur) (df cur) P wl.dropLast
+      apply ih _ _ Pf ?_ h
+      intro j v hv
+      rcases g3 j v hv with h1 | ⟨_, h2⟩
+      · exact hP j v h1
+      · rcases List.mem_append.mp h2 with h3 | h3
+        · exact hQ cur v h3
+        · exact hP cur v h3
+
 -- ---------------------------------------------------------------------------- part 2: the renaming
 
 open Circomspect.Graph Circomspect.DominatorLemmas
@@ -329,5 +357,421 @@ theorem edge_no_phi (V : Versions) (c : PCfg) (P : Phis) (idom : Nat → Nat) (v
   apply chain_out V c P idom vars H i p v hi hi0 hp hv p hplt
   · exact dom_pred hidom.1.1 hidom.1.2 hp hi
   · exact dom_refl _ p
+
+-- ---------------------------------------------------------------------------- part 3: the built CFG
+
+theorem optAll_spec {α : Type} : ∀ (l : List (Option α)) (r : List α), optAll l = some r → l = r.map some
+  | [], r, h => by simp [optAll] at h; subst h; rfl
+  | none :: rest, r, h => by simp [optAll] at h
+  | some x :: rest, r, h => by
+    simp only [optAll] at h
+    cases hr : optAll rest with
+    | none => rw [hr] at h; cases h
+    | some xs =>
+      rw [hr] at h; cases h
+      simp [optAll_spec rest xs hr]
+
+theorem execStmts_append (m : VMap) (a b : List Stmt) : execStmts m (a ++ b) = execStmts (execStmts m a) b := by
+  simp [execStmts, List.foldl_append]
+
+theorem exec_phis (V : Versions) (c : PCfg) (P : Phis) (idom : Nat → Nat) (i : Nat) (m : VMap) :
+    execStmts m (phiStmts V c P idom i) = phiMap V P i m := by
+  unfold phiStmts phiMap execStmts
+  rw [List.foldl_map]
+  rfl
+
+/-- a renamed statement acts on the version map as `stepMap` says -/
+theorem exec_renameStmt (V : Versions) (i k : Nat) (m : VMap) (s : PStmt) (s' : Stmt) (h : renameStmt V i k m s = some s') :
+    execStmt m s' = stepMap V i k m s := by
+  unfold renameStmt at h
+  cases hr : optAll (s.reads.map (fun r => (m r).map (fun n => (r, n)))) with
+  | none => rw [hr] at h; cases h
+  | some rs =>
+    rw [hr] at h; simp only [Option.some.injEq] at h; subst h
+    unfold execStmt stepMap preStmt
+    cases ht : s.target with
+    | none => cases s.upd <;> simp
+    | some v =>
+      cases hu : s.upd with
+      | false => simp
+      | true =>
+        simp only [Option.map_some, List.foldl_cons, List.foldl_nil, updRead]
+        cases hm : m v with
+        | none => simp
+        | some kk => simp
+
+theorem exec_renameStmts (V : Versions) (i : Nat) : ∀ (ss : List PStmt) (k : Nat) (m : VMap) (ss' : List Stmt),
+    renameStmts V i k m ss = some ss' → execStmts m ss' = stepMaps V i k m ss := by
+  intro ss
+  induction ss with
+  | nil => intro k m ss' h; simp [renameStmts] at h; subst h; rfl
+  | cons s rest ih =>
+    intro k m ss' h
+    simp only [renameStmts] at h
+    cases h1 : renameStmt V i k m s with
+    | none => rw [h1] at h; cases h
+    | some s' =>
+      rw [h1] at h; simp only at h
+      cases h2 : renameStmts V i (k + 1) (stepMap V i k m s) rest with
+      | none => rw [h2] at h; cases h
+      | some rest' =>
+        rw [h2] at h; simp only [Option.some.injEq] at h; subst h
+        simp only [stepMaps]
+        have := ih (k + 1) _ rest' h2
+        rw [← this, ← exec_renameStmt V i k m s s' h1]
+        rfl
+
+/-- the reads of a renamed statement name the current versions -/
+theorem reads_renameStmt (V : Versions) (i k : Nat) (m : VMap) (s : PStmt) (s' : Stmt) (h : renameStmt V i k m s = some s') :
+    s'.isPhi = false ∧ s'.reads.all (fun r => preStmt m s' r.1 == some r.2) = true := by
+  unfold renameStmt at h
+  cases hr : optAll (s.reads.map (fun r => (m r).map (fun n => (r, n)))) with
+  | none => rw [hr] at h; cases h
+  | some rs =>
+    rw [hr] at h; simp only [Option.some.injEq] at h; subst h
+    refine ⟨rfl, ?_⟩
+    have hspec := optAll_spec _ rs hr
+    -- every renamed read carries the current version
+    have hrs : ∀ r, r ∈ rs → m r.1 = some r.2 := by
+      intro r hmem
+      have : some r ∈ rs.map some := List.mem_map.mpr ⟨r, hmem, rfl⟩
+      rw [← hspec] at this
+      obtain ⟨x, _, hx⟩ := List.mem_map.mp this
+      cases hmx : m x with
+      | none => rw [hmx] at hx; cases hx
+      | some n => rw [hmx] at hx; simp at hx; subst hx; exact hmx
+    rw [List.all_eq_true]
+    intro r hmem
+    simp only [beq_iff_eq]
+    cases ht : s.target with
+    | none =>
+      cases hu : s.upd <;> simp only [ht, hu, List.nil_append] at hmem ⊢ <;> simp [preStmt] <;> exact hrs r hmem
+    | some v =>
+      cases hu : s.upd with
+      | false =>
+        simp only [ht, hu, List.nil_append] at hmem ⊢
+        simp [preStmt]; exact hrs r hmem
+      | true =>
+        simp only [ht, hu, List.cons_append, List.nil_append, List.mem_cons] at hmem ⊢
+        simp only [preStmt, List.foldl_cons, List.foldl_nil, updRead]
+        rcases hmem with h1 | h1
+        · subst h1
+          cases hm : m v with
+          | none => simp [set_same, updRead, hm]
+          | some kk => simp [hm, updRead]
+        · have := hrs r h1
+          cases hm : m v with
+          | none =>
+            simp only [if_true]
+            have hne : r.1 ≠ v := by intro e; rw [e, hm] at this; cases this
+            rw [set_other _ _ _ _ hne]; exact this
+          | some kk => simp [this]
+
+theorem readsOk_renameStmts (V : Versions) (i : Nat) : ∀ (ss : List PStmt) (k : Nat) (m : VMap) (ss' : List Stmt),
+    renameStmts V i k m ss = some ss' → readsOk m ss' = true := by
+  intro ss
+  induction ss with
+  | nil => intro k m ss' h; simp [renameStmts] at h; subst h; rfl
+  | cons s rest ih =>
+    intro k m ss' h
+    simp only [renameStmts] at h
+    cases h1 : renameStmt V i k m s with
+    | none => rw [h1] at h; cases h
+    | some s' =>
+      rw [h1] at h; simp only at h
+      cases h2 : renameStmts V i (k + 1) (stepMap V i k m s) rest with
+      | none => rw [h2] at h; cases h
+      | some rest' =>
+        rw [h2] at h; simp only [Option.some.injEq] at h; subst h
+        simp only [readsOk, Bool.and_eq_true, Bool.or_eq_true]
+        refine ⟨Or.inr (reads_renameStmt V i k m s s' h1).2, ?_⟩
+        rw [exec_renameStmt V i k m s s' h1]
+        exact ih (k + 1) _ rest' h2
+
+theorem renamed_noPhi (V : Versions) (i : Nat) : ∀ (ss : List PStmt) (k : Nat) (m : VMap) (ss' : List Stmt),
+    renameStmts V i k m ss = some ss' → ∀ s', s' ∈ ss' → s'.isPhi = false := by
+  intro ss
+  induction ss with
+  | nil => intro k m ss' h; simp [renameStmts] at h; subst h; intro s' hs; cases hs
+  | cons s rest ih =>
+    intro k m ss' h
+    simp only [renameStmts] at h
+    cases h1 : renameStmt V i k m s with
+    | none => rw [h1] at h; cases h
+    | some s' =>
+      rw [h1] at h; simp only at h
+      cases h2 : renameStmts V i (k + 1) (stepMap V i k m s) rest with
+      | none => rw [h2] at h; cases h
+      | some rest' =>
+        rw [h2] at h; simp only [Option.some.injEq] at h; subst h
+        intro t ht
+        rcases List.mem_cons.mp ht with e | e
+        · subst e; exact (reads_renameStmt V i k m s _ h1).1
+        · exact ih (k + 1) _ rest' h2 t e
+
+theorem readsOk_phis (V : Versions) (c : PCfg) (P : Phis) (idom : Nat → Nat) (i : Nat) (ss : List Stmt) (m : VMap) :
+    readsOk m (phiStmts V c P idom i ++ ss) = readsOk (phiMap V P i m) ss := by
+  unfold phiStmts phiMap
+  generalize P i = l
+  induction l generalizing m with
+  | nil => rfl
+  | cons v vs ih =>
+    simp only [List.map_cons, List.cons_append, readsOk, Bool.true_or, Bool.true_and, List.foldl_cons]
+    rw [ih]
+    rfl
+
+/-- the shape of the built CFG -/
+theorem build_spec (V : Versions) (c : PCfg) (P : Phis) (idom : Nat → Nat) (c' : Cfg) (h : build V c P idom = some c') :
+    c'.params = c.params ∧ c'.blocks.length = c.blocks.length ∧
+    ∀ i, i < c.blocks.length → ∃ ss, renameStmts V i 0 (phiMap V P i (insOf V c P idom i)) (c.block i).stmts = some ss ∧
+      c'.block i = { stmts := phiStmts V c P idom i ++ ss, preds := (c.block i).preds, succs := (c.block i).succs } := by
+  unfold build at h
+  split at h
+  · cases h
+  · rename_i bs hbs
+    simp only [Option.some.injEq] at h; subst h
+    have hspec := optAll_spec _ bs hbs
+    have hlen : bs.length = c.blocks.length := by
+      have := congrArg List.length hspec
+      simp at this; exact this.symm
+    refine ⟨rfl, hlen, ?_⟩
+    intro i hi
+    have hget := congrArg (fun l => l[i]?) hspec
+    simp only [List.getElem?_map, List.getElem?_range hi, Option.map_some] at hget
+    cases hr : renameStmts V i 0 (phiMap V P i (insOf V c P idom i)) (c.block i).stmts with
+    | none => rw [hr] at hget; simp at hget; cases hb : bs[i]? <;> simp [hb] at hget
+    | some ss =>
+      rw [hr] at hget
+      refine ⟨ss, rfl, ?_⟩
+      simp only [Option.map_some] at hget
+      cases hb : bs[i]? with
+      | none => rw [hb] at hget; simp at hget
+      | some B =>
+        rw [hb] at hget; simp only [Option.map_some, Option.some.injEq] at hget
+        unfold Cfg.block
+        simp only [List.getD_eq_getElem?_getD, hb, Option.getD_some]
+        exact hget.symm
+
+theorem phiFor_phis_some (V : Versions) (c : PCfg) (P : Phis) (idom : Nat → Nat) (i : Nat) (ss : List Stmt) (v : Var)
+    (hv : v ∈ P i) (preds succs : List Nat) :
+    phiFor { stmts := phiStmts V c P idom i ++ ss, preds := preds, succs := succs } v = some (phiArgs V c P idom i v) := by
+  unfold phiFor phiStmts
+  simp only
+  generalize P i = l at hv
+  induction l with
+  | nil => cases hv
+  | cons w ws ih =>
+    simp only [List.map_cons, List.cons_append, List.find?_cons]
+    by_cases hwv : w = v
+    · subst hwv; simp
+    · have : (w == v) = false := by simpa using hwv
+      simp only [this, Bool.and_false, Bool.true_and]
+      rcases List.mem_cons.mp hv with e | e
+      · exact absurd e.symm hwv
+      · exact ih e
+
+theorem phiFor_phis_none (V : Versions) (c : PCfg) (P : Phis) (idom : Nat → Nat) (i : Nat) (ss : List Stmt) (v : Var)
+    (hv : v ∉ P i) (hss : ∀ s, s ∈ ss → s.isPhi = false) (preds succs : List Nat) :
+    phiFor { stmts := phiStmts V c P idom i ++ ss, preds := preds, succs := succs } v = none := by
+  unfold phiFor
+  simp only [Option.map_eq_none_iff, List.find?_eq_none]
+  intro s hs
+  rcases List.mem_append.mp hs with h | h
+  · unfold phiStmts at h
+    obtain ⟨w, hw, e⟩ := List.mem_map.mp h
+    subst e
+    have hne : w ≠ v := fun e => hv (by rw [← e]; exact hw)
+    have : (w == v) = false := by simpa using hne
+    simp [this]
+  · simp [hss s h]
+
+theorem mem_phiArgs (V : Versions) (c : PCfg) (P : Phis) (idom : Nat → Nat) (i : Nat) (v : Var) (r : VVar)
+    (h : r ∈ phiArgs V c P idom i v) : r.1 = v := by
+  unfold phiArgs at h
+  rw [List.mem_eraseDups] at h
+  obtain ⟨p, _, hp⟩ := List.mem_filterMap.mp h
+  cases ho : outOfB V c P idom p v with
+  | none => rw [ho] at hp; cases hp
+  | some k => rw [ho] at hp; simp at hp; rw [← hp]
+
+theorem phiArgs_contains (V : Versions) (c : PCfg) (P : Phis) (idom : Nat → Nat) (i p : Nat) (v : Var) (k : Nat)
+    (hp : p ∈ (c.block i).preds) (hk : outOfB V c P idom p v = some k) : (v, k) ∈ phiArgs V c P idom i v := by
+  unfold phiArgs
+  rw [List.mem_eraseDups]
+  exact List.mem_filterMap.mpr ⟨p, hp, by rw [hk]; rfl⟩
+
+/-- `vars` lists every variable of the CFG -/
+structure VarsOk (c : PCfg) (vars : List Var) : Prop where
+  params : ∀ p, p ∈ c.params → p ∈ vars
+  stmts : ∀ i, i < c.blocks.length → ∀ s, s ∈ (c.block i).stmts →
+    (∀ v, s.target = some v → v ∈ vars) ∧ ∀ r, r ∈ s.reads → r ∈ vars
+
+theorem vars_renameStmt (V : Versions) (i k : Nat) (m : VMap) (s : PStmt) (s' : Stmt) (vars : List Var)
+    (h : renameStmt V i k m s = some s') (ht : ∀ v, s.target = some v → v ∈ vars) (hr : ∀ r, r ∈ s.reads → r ∈ vars) :
+    (∀ t, s'.target = some t → t.1 ∈ vars) ∧ (∀ r, r ∈ s'.reads → r.1 ∈ vars) ∧ (∀ r, r ∈ s'.implicit → r.1 ∈ vars) := by
+  unfold renameStmt at h
+  cases hro : optAll (s.reads.map (fun r => (m r).map (fun n => (r, n)))) with
+  | none => rw [hro] at h; cases h
+  | some rs =>
+    rw [hro] at h; simp only [Option.some.injEq] at h; subst h
+    have hspec := optAll_spec _ rs hro
+    have hrs : ∀ r, r ∈ rs → r.1 ∈ vars := by
+      intro r hmem
+      have : some r ∈ rs.map some := List.mem_map.mpr ⟨r, hmem, rfl⟩
+      rw [← hspec] at this
+      obtain ⟨x, hx, hxe⟩ := List.mem_map.mp this
+      cases hmx : m x with
+      | none => rw [hmx] at hxe; cases hxe
+      | some n => rw [hmx] at hxe; simp at hxe; subst hxe; exact hr x hx
+    have himp : ∀ r, r ∈ (match s.upd, s.target with | true, some v => [(v, updRead V i k m v)] | _, _ => ([] : List VVar)) → r.1 ∈ vars := by
+      intro r hmem
+      cases hu : s.upd <;> cases htt : s.target <;> simp only [hu, htt] at hmem
+      · cases hmem
+      · cases hmem
+      · cases hmem
+      · simp only [List.mem_singleton] at hmem; subst hmem; exact ht _ htt
+    refine ⟨?_, ?_, himp⟩
+    · intro t htt
+      cases hst : s.target with
+      | none => simp [hst] at htt
+      | some v => simp [hst] at htt; subst htt; exact ht v hst
+    · intro r hmem
+      rcases List.mem_append.mp hmem with h1 | h1
+      · exact himp r h1
+      · exact hrs r h1
+
+theorem vars_renameStmts (V : Versions) (i : Nat) (vars : List Var) : ∀ (ss : List PStmt) (k : Nat) (m : VMap) (ss' : List Stmt),
+    renameStmts V i k m ss = some ss' →
+    (∀ s, s ∈ ss → (∀ v, s.target = some v → v ∈ vars) ∧ ∀ r, r ∈ s.reads → r ∈ vars) →
+    ∀ s', s' ∈ ss' → (∀ t, s'.target = some t → t.1 ∈ vars) ∧ (∀ r, r ∈ s'.reads → r.1 ∈ vars) ∧ (∀ r, r ∈ s'.implicit → r.1 ∈ vars) := by
+  intro ss
+  induction ss with
+  | nil => intro k m ss' h _; simp [renameStmts] at h; subst h; intro s' hs; cases hs
+  | cons s rest ih =>
+    intro k m ss' h hv
+    simp only [renameStmts] at h
+    cases h1 : renameStmt V i k m s with
+    | none => rw [h1] at h; cases h
+    | some s' =>
+      rw [h1] at h; simp only at h
+      cases h2 : renameStmts V i (k + 1) (stepMap V i k m s) rest with
+      | none => rw [h2] at h; cases h
+      | some rest' =>
+        rw [h2] at h; simp only [Option.some.injEq] at h; subst h
+        intro t ht
+        rcases List.mem_cons.mp ht with e | e
+        · subst e
+          exact vars_renameStmt V i k m s _ vars h1 (hv s List.mem_cons_self).1 (hv s List.mem_cons_self).2
+        · exact ih (k + 1) _ rest' h2 (fun t' ht' => hv t' (List.mem_cons_of_mem _ ht')) t e
+
+/-- **the construction passes the certificate check**, for every numbering of the versions -/
+theorem build_check (V : Versions) (c : PCfg) (P : Phis) (idom : Nat → Nat) (vars : List Var)
+    (H : BuildHyp c P idom vars) (hvars : VarsOk c vars) (c' : Cfg) (h : build V c P idom = some c') :
+    ssaLocalCheck c' vars (insOf V c P idom) = true := by
+  obtain ⟨hpar, hlen, hblk⟩ := build_spec V c P idom c' h
+  have hpos : 0 < c.blocks.length := H.rooted.pos
+  -- the map at the end of a block of the built CFG
+  have hout : ∀ i, i < c.blocks.length → outOf c' (insOf V c P idom) i = outOfB V c P idom i := by
+    intro i hi
+    obtain ⟨ss, hss, hb⟩ := hblk i hi
+    unfold outOf outOfB blockOut
+    rw [hb]
+    simp only
+    rw [execStmts_append, exec_phis, exec_renameStmts V i _ 0 _ ss hss]
+  unfold ssaLocalCheck
+  simp only [Bool.and_eq_true, List.all_eq_true, decide_eq_true_eq]
+  refine ⟨⟨⟨?_, ?_⟩, ?_⟩, ?_⟩
+  · -- mentions
+    unfold mentions
+    simp only [Bool.and_eq_true, List.all_eq_true]
+    refine ⟨?_, ?_⟩
+    · intro p hp; rw [hpar] at hp; simpa using hvars.params p hp
+    · intro b hb s hs
+      obtain ⟨i, hi, hbi⟩ := List.mem_iff_getElem.mp hb
+      have hi' : i < c.blocks.length := by rw [← hlen]; exact hi
+      obtain ⟨ss, hss, hbl⟩ := hblk i hi'
+      have hbe : c'.block i = b := by
+        unfold Cfg.block
+        simp [List.getD_eq_getElem?_getD, List.getElem?_eq_getElem hi, hbi]
+      rw [hbl] at hbe
+      rw [← hbe] at hs
+      simp only at hs
+      rcases List.mem_append.mp hs with hs1 | hs1
+      · -- a phi statement
+        unfold phiStmts at hs1
+        obtain ⟨v, hv, e⟩ := List.mem_map.mp hs1
+        subst e
+        refine ⟨⟨by simpa using H.phiVars i v hv, ?_⟩, ?_⟩
+        · intro r hr
+          rw [mem_phiArgs V c P idom i v r hr]
+          simpa using H.phiVars i v hv
+        · intro r hr; cases hr
+      · obtain ⟨t1, t2, t3⟩ := vars_renameStmts V i vars _ 0 _ ss hss (hvars.stmts i hi') s hs1
+        refine ⟨⟨?_, fun r hr => by simpa using t2 r hr⟩, fun r hr => by simpa using t3 r hr⟩
+        cases hst : s.target with
+        | none => rfl
+        | some t => simpa using t1 t hst
+  · -- the entry block has no predecessor
+    obtain ⟨ss, _, hb⟩ := hblk 0 hpos
+    rw [hb]
+    have := H.rooted.entry
+    simp only [graphP] at this
+    simp [this]
+  · -- the entry map
+    intro v _
+    rw [insOf_zero, hpar]
+    simp
+  · intro i hi
+    rw [List.mem_range, hlen] at hi
+    obtain ⟨ss, hss, hb⟩ := hblk i hi
+    have hnophi := renamed_noPhi V i _ 0 _ ss hss
+    refine ⟨⟨?_, ?_⟩, ?_⟩
+    · -- phis form a prefix
+      rw [hb]
+      unfold phiPrefix
+      simp only [Bool.and_eq_true, List.all_eq_true]
+      constructor
+      · intro s hs
+        have hsub : s ∈ phiStmts V c P idom i ++ ss := (List.dropWhile_sublist _).subset hs
+        rcases List.mem_append.mp hsub with h1 | h1
+        · -- a phi statement cannot survive `dropWhile isPhi` before a non-phi one... it can only if a non-phi precedes it
+          exfalso
+          have hall : ∀ t, t ∈ phiStmts V c P idom i → t.isPhi = true := by
+            intro t ht; unfold phiStmts at ht; obtain ⟨v, _, e⟩ := List.mem_map.mp ht; subst e; rfl
+          have hdrop : (phiStmts V c P idom i ++ ss).dropWhile (·.isPhi) = ss.dropWhile (·.isPhi) := by
+            generalize phiStmts V c P idom i = l at hall
+            induction l with
+            | nil => rfl
+            | cons t ts ih =>
+              simp only [List.cons_append, List.dropWhile_cons, hall t List.mem_cons_self, if_true]
+              exact ih (fun t' ht' => hall t' (List.mem_cons_of_mem _ ht'))
+          rw [hdrop] at hs
+          have := hnophi s ((List.dropWhile_sublist _).subset hs)
+          rw [hall s h1] at this; cases this
+        · simp [hnophi s h1]
+      · intro s hs
+        rcases List.mem_append.mp hs with h1 | h1
+        · unfold phiStmts at h1; obtain ⟨v, _, e⟩ := List.mem_map.mp h1; subst e; simp
+        · simp [hnophi s h1]
+    · -- the edge conditions
+      intro p hp v hv
+      have hp' : p ∈ (c.block i).preds := by rw [hb] at hp; exact hp
+      have hplt : p < c.blocks.length := H.rooted.closed i hi p hp'
+      by_cases hvP : v ∈ P i
+      · rw [hb, phiFor_phis_some V c P idom i ss v hvP]
+        simp only
+        rw [hout p hplt]
+        cases hk : outOfB V c P idom p v with
+        | none => rfl
+        | some k => simpa using phiArgs_contains V c P idom i p v k hp' hk
+      · rw [hb, phiFor_phis_none V c P idom i ss v hvP hnophi]
+        simp only
+        rw [hout p hplt, edge_no_phi V c P idom vars H i p v hi hp' hvP]
+        simp
+    · -- the reads
+      rw [hb]
+      simp only
+      rw [readsOk_phis]
+      exact readsOk_renameStmts V i _ 0 _ ss hss
 
 end Circomspect.SsaBuild
